@@ -29,6 +29,33 @@ type c3DB struct {
 	wrapNF bool
 	calls  int
 	writes []string
+	gate   *c3Gate // if armed: the FIRST call to reach the database is suspended before it looks at its arguments
+}
+
+// c3Gate suspends one database call: `entered` is closed when the call has arrived (holding its key slice, not
+// yet having read it), the call goes on when `resume` is closed. Used to overlap two store calls deterministically.
+type c3Gate struct {
+	entered chan struct{}
+	resume  chan struct{}
+}
+
+func (d *c3DB) arm() *c3Gate {
+	g := &c3Gate{entered: make(chan struct{}), resume: make(chan struct{})}
+	d.mu.Lock()
+	d.gate = g
+	d.mu.Unlock()
+	return g
+}
+
+func (d *c3DB) pass() {
+	d.mu.Lock()
+	g := d.gate
+	d.gate = nil
+	d.mu.Unlock()
+	if g != nil {
+		close(g.entered)
+		<-g.resume
+	}
 }
 
 func c3SplitFaults(faults string) (string, bool) {
@@ -89,6 +116,7 @@ func (d *c3DB) fault() error {
 }
 
 func (d *c3DB) GetByKey(key []byte) ([]byte, error) {
+	d.pass()
 	d.mu.Lock()
 	defer d.mu.Unlock()
 	if err := d.fault(); err != nil {
@@ -105,6 +133,7 @@ func (d *c3DB) GetByKey(key []byte) ([]byte, error) {
 }
 
 func (d *c3DB) SetByKey(key []byte, value []byte) error {
+	d.pass()
 	d.mu.Lock()
 	defer d.mu.Unlock()
 	if err := d.fault(); err != nil {
